@@ -728,6 +728,7 @@ def explore_run_model(ix, thorough=False, mutate=None):
             if ev[2] == "KI":
                 g["ki"] = True
             g["last_child_failed"] = ev[2] is True or ev[2] == "KI"
+            g["iter_ran"] = True
             g["n_run"] = 1 if g.get("n_run", 0) == 0 else GE2
             # uri must have been announced to every formatter for this feature
             if g.get("uri_seen") != tuple(range(w.n_formatters)):
@@ -736,6 +737,7 @@ def explore_run_model(ix, thorough=False, mutate=None):
         elif k == "iter":
             _close(st)
             g["iter_open"] = True
+            g["iter_ran"] = False
             g["cur_feature"] = ev[3]
             g["rep_feature"] = ()
             if g.get("last_child_failed"):
@@ -776,6 +778,14 @@ def explore_run_model(ix, thorough=False, mutate=None):
     def _close(st):
         g = st.ghost
         if g.get("iter_open"):
+            if not g.get("iter_ran"):
+                # a feature of the loaded model was passed over: only an abort (incl. a failed before_all or an
+                # interrupt) or an earlier failure under --stop justifies that
+                cause = g.get("aborted") is True or g.get("before_all_failed") or g.get("ki") or \
+                    (g.get("child_failed") and g.get("@stop") is True)
+                if not cause:
+                    g.setdefault("skip.err", "a feature is passed over although the run is not aborted and no earlier feature "
+                                             "failed under --stop: its failures can never show in the verdict")
             if g.get("rep_feature", ()) != tuple(range(2)):
                 g.setdefault("y4.err", "a feature is not reported to every reporter (reported to %s)" % (g.get("rep_feature", ()),))
         g["cur_feature"] = None
@@ -832,7 +842,7 @@ def explore_run_model(ix, thorough=False, mutate=None):
             "hook_failures": ro.fields.get("hook_failures"),
             "undefined_grew": und.count != 0, "cleanups_failed": g.get("cleanups_failed", False),
             "cleanups_called": g.get("cleanups_called", False),
-            "allseq": g.get("allseq", "start"), "h4_err": g.get("h4.err"), "stop_err": g.get("stop.err"),
+            "allseq": g.get("allseq", "start"), "h4_err": g.get("h4.err"), "stop_err": g.get("stop.err"), "skip_err": g.get("skip.err"),
             "y4_err": g.get("y4.err"), "f4_err": g.get("f4.err"),
             "closed": [bool(g.get("closed%d" % i)) for i in range(w.n_formatters)],
             "ended": [bool(g.get("ended%d" % i)) for i in range(2)],
